@@ -133,8 +133,15 @@ func stubIntrinsicQiTxGas(tx *types.Transaction, scalingFactor float64) uint64 {
 	if !qiSymbolicFees {
 		return 1000
 	}
-	return uint64(vU16("intrinsicGas"))
+	// a deterministic function of the transaction: chosen once per scenario
+	if qiIntrinsicGas == nil {
+		g := uint64(vU16("intrinsicGas"))
+		qiIntrinsicGas = &g
+	}
+	return *qiIntrinsicGas
 }
+
+var qiIntrinsicGas *uint64
 
 func stubQuaiRewardCore(header *types.WorkObjectHeader, difficulty *big.Int, exchangeRate *big.Int) *big.Int {
 	if !qiSymbolicFees {
@@ -210,6 +217,7 @@ func vQiScenario(maxIn, maxOut int, dataKind int) *qiScenario {
 	parsedKeys = map[*btcec.PublicKey][]byte{}
 	aggregated = map[*btcec.PublicKey][][]byte{}
 	sigChecked, sigResult, sigKey, sigDigest = false, false, nil, nil
+	qiIntrinsicGas = nil
 	qiTxHash = common.BytesToHash([]byte{0xaa, 0xbb})
 	s.nIn = 1 + vLen("extraInputs", maxIn-1)
 	s.nOut = vLen("outputs", maxOut)
